@@ -339,6 +339,18 @@ func c11all(thorough bool, f func(v c11val, class string) bool) {
 			}
 		}
 	}
+	// members stored under dotted symbol keys next to the members their path would resolve to
+	for _, typ := range []string{"hash", "ranch"} {
+		for _, ks := range [][]string{{".k", "k"}, {"k", ".k"}, {"a.b", "k"}, {".zz", "k"}} {
+			if !f(c11hash(typ, false, ks, []c11val{c11int(1), c11int(2)}), typ+"-dotkey") {
+				return
+			}
+		}
+		inner := c11hash("inner", false, []string{"b"}, []c11val{c11int(7)})
+		if !f(c11hash(typ, false, []string{"a", ".a.b", "a.b"}, []c11val{inner, c11int(8), c11int(9)}), typ+"-dotkey") {
+			return
+		}
+	}
 	// string keys (JSON-style source literals): JSON text only
 	for _, k := range []string{"k", "two words", "q\"uote", "back\\slash", "é", "\n", "", "Atype2", "1"} {
 		for _, a := range small {
